@@ -624,12 +624,17 @@ class Gen:
         w/nocase, that whole set is case-folded character by character in Scheme.  With a complement or a
         named class among the members the set is (almost) all of Unicode and compiling takes 90-150 s (slow,
         not the subject of this property): such shapes get a LAST member that is not a char-set.  Small
-        compound members stay (they compile at once)."""
+        compound members stay (they compile at once).
+        Second rule, found by this check: the union of such a tail is computed with (chibi iset) iset-union,
+        which loses elements when its first argument is a complement-sized set (a defect of that library, see
+        finding C20-char-set-union-loses-member and the TAGGED cases below).  A tail of two or more char-sets
+        with a complement / named class therefore also gets a last non-char-set member in the bulk generator;
+        the defect itself stays visible through the hand-written TAGGED cases."""
         r = self.r
         k = r.randrange(2, 4) if r.random() < 0.85 else 1
         alts = [self.gen(d - 1, foldp) for _ in range(k)]
         k = cset_suffix_start(alts)
-        if foldp and k is not None and any(cs_is_big(x) for x in alts[k:]):
+        if k is not None and any(cs_is_big(x) for x in alts[k:]) and (foldp or len(alts) - k >= 2):
             alts.append(("str", self.ch() + self.ch()))      # must come last: every all-char-set SUFFIX is one char-set
         return ("or", tuple(alts))
 
@@ -643,7 +648,7 @@ def nocase_inside(e, foldp=False):
     if t == "or":
         alts = [nocase_inside(x, foldp) for x in e[1]]
         k = cset_suffix_start(alts)
-        if foldp and k is not None and any(cs_is_big(x) for x in alts[k:]):
+        if k is not None and any(cs_is_big(x) for x in alts[k:]) and (foldp or len(alts) - k >= 2):
             alts.append(("str", "ab"))
         return ("or", tuple(alts))
     if t == "seq":
@@ -694,6 +699,12 @@ FIXED = [
     ("word", ("*", ("or", (("nwb",), ("cls", "any"))), True)),
     ("uni", ("nocase", ("seq", (("lit", E_ACUTE_UP), ("*", ("set", LAMBDA + NICHI), True), ("?", ("lit", GRIN), True))))),
     ("uni", ("w/ascii", ("+", ("or", (("cls", "alpha"), ("lit", NICHI)))))),
+]
+
+# hand-written cases for a defect whose root cause lies outside regexp.scm; the tag names the cause in the signature
+TAGGED = [
+    ("plain", ("or", (("not", ("set", "b")), ("set", "ab"))), "char-set-union-loses-member"),
+    ("word", ("or", (("not", ("set", "ba")), ("or", (("lit", "a"), ("lit", " "))))), "char-set-union-loses-member"),
 ]
 
 # shapes that compile slowly on the unchanged tree (w/nocase around an all-char-set `or` with a complement /
@@ -918,7 +929,7 @@ def judge_sre(item, res):
         bad, exp = judge_pair(e, s, (pred, mt, sr), out["stats"])
         if not bad:
             continue
-        cause = "unexplained"
+        cause = item.get("tag") or "unexplained"
         if has_flagged_cset_or(e) and explained_by_or_fold(e, s, (pred, mt, sr)):
             cause = "or-cset-ignores-flags"
         elif all(m.endswith("submatch-not-a-match") and d[-1] == "stale-non-greedy-end" for m, d in bad):
@@ -978,8 +989,8 @@ def check(rep, tier, seed, variant="hooks", n_sre=None, n_ex=None):
     b = B.ensure(variant)
     rep.builds.add(variant)
     quick = tier == "quick"
-    n_sre = n_sre if n_sre is not None else (1400 if quick else 30000)
-    n_ex = n_ex if n_ex is not None else (20 if quick else 800)
+    n_sre = n_sre if n_sre is not None else (1100 if quick else 20000)
+    n_ex = n_ex if n_ex is not None else (16 if quick else 500)
 
     # subject pools (Scheme side: one list per pool, defined once per process)
     pools = {}
@@ -1002,6 +1013,9 @@ def check(rep, tier, seed, variant="hooks", n_sre=None, n_ex=None):
 
     for theme, e in FIXED:
         add(theme, e, "P-%s-0" % theme, NPRED)
+    for theme, e, tag in TAGGED:
+        add(theme, e, "P-%s-0" % theme, NPRED)
+        items[-1]["tag"] = tag
     for _ in range(n_sre):
         theme, e = gen_sre(rng)
         add(theme, e, "P-%s-%d" % (theme, rng.randrange(NPOOLS)), NPRED)
